@@ -460,6 +460,13 @@ class World:
         spec = trace["cfg"]["model"]
         self.model = hist.build_model(spec)
         self.ref = hist.ref_from_spec(spec)
+        for c in spec.get("user_cons", []):  # C13 only: analyses must respect and restore user-added constraints too
+            expr = 0
+            for rid, k in c["expr"]:
+                expr = expr + k * self.model.reactions.get_by_id(rid).flux_expression
+            self.model.add_cons_vars([self.model.problem.Constraint(expr, lb=c["lb"], ub=c["ub"], name=c["name"])])
+            self.ref.apply({"op": "add_cons", **c}, None)
+            stats["probe:model_with_user_constraint"] += 1
         self.refs = {}  # canon_key -> unique results of the first fault-free call
         self.full = {}  # canon_key -> merged per-item results (for single-item / subset comparison)
         self.user_ctx_snap = None
@@ -1138,6 +1145,11 @@ def generate_and_run(run_seed, prop, tier, run_cfg):
     St = Streams(run_seed)
     sw = make_swarm(St("swarm"), prop, run_cfg)
     spec = gen_network(St("model"), sw)
+    if prop == "C13" and St("swarm").random() < 0.3:
+        r = St("model")
+        ids = [x["id"] for x in spec["rxns"]]
+        spec["user_cons"] = [{"name": "ucon0", "expr": [[i, r.choice([1, -1, 2])] for i in r.sample(ids, min(2, len(ids)))],
+                              "lb": r.choice([None, -5, 0]), "ub": r.choice([5, 10, 100])}]
     trace = {"engine": "pool", "cfg": {"model": spec, "swarm": sw, "hash_seed": St("hash").getrandbits(32)}, "ops": [],
              "schedule": {}}
     return _execute(trace, prop, run_cfg, streams=St)
